@@ -12,6 +12,7 @@ fn main() {
         "geometry" => geometry::main_geometry(),
         "ctc" => ctc::main_ctc(),
         "serialize" => serialize::main_serialize(),
+        "serialize-hdr" => serialize::main_serialize_hdr(),
         _ => {
             eprintln!("usage: vh-misc <raster-contours|raster-draw|geometry|ctc|serialize> [options]");
             std::process::exit(2);
